@@ -150,6 +150,7 @@ def run(s):
                 K.run_case(s, ro_txt, kind, kw, pretty=rng.random() < 0.5, ctx={'shapes': shapes})
     K.story_grid(s, 3, layouts=('between',), pretties=(False,), full=False, timed=(False,))
     K.item_grid(s, 2, pretties=(False,), full=False, inters=(True,))
+    K.idless_cases(s)
     K.fuzz(s, 150 if q else 6000, K.kind_weights(1, 1, 0.4, 0.02), steps=(10, 40), text='hostile',
            timing='any', shape_weights=(0.5, 0.2, 0.25, 0.05), selfref=0.25, blank_carried=0.06, direct=0.15)
     hostile_id_histories(s, 120 if q else 2500)
